@@ -126,6 +126,177 @@ theorem swap_indep (f g : Store → Store) (R1 W1 R2 W2 : List String)
       exact hf.frame s y this
     · rw [hg.frame (f s) x h2, hf.frame s x h1, hf.frame (g s) x h1, hg.frame s x h2]
 
+
+/-! ### (c) any two emission orders that keep conflicting statements in the same order compute the same store
+
+The statements of a program section, each with its footprint.  Two emission orders of the same statements - e.g. two topological
+orders of one dependence graph, chosen by different set-iteration orders - may differ only in the relative order of statements with
+disjoint footprints.  Then they compute the same store, from every initial store (the general form of `swap_indep`). -/
+
+structure Stm where
+  id : Nat
+  f : Store → Store
+  R : List String
+  W : List String
+
+def runL (l : List Stm) (s : Store) : Store := l.foldl (fun s st => st.f s) s
+
+def IndepS (a b : Stm) : Prop := Indep a.R a.W b.R b.W
+
+theorem IndepS.symm {a b : Stm} (h : IndepS a b) : IndepS b a := by
+  obtain ⟨h1, h2⟩ := h
+  refine ⟨fun x hx => ⟨h2 x hx, fun hw => (h1 x hw).2 hx⟩, fun x hx => (h1 x hx).1⟩
+
+theorem runL_append (l1 l2 : List Stm) (s : Store) : runL (l1 ++ l2) s = runL l2 (runL l1 s) := by
+  simp [runL, List.foldl_append]
+
+/-- a statement independent of everything in front of it can be moved to the front -/
+theorem bubble (a : Stm) (ha : Respects a.f a.R a.W) : ∀ (pre : List Stm), (∀ b ∈ pre, Respects b.f b.R b.W) → (∀ b ∈ pre, IndepS b a) →
+    ∀ s, runL (pre ++ [a]) s = runL (a :: pre) s
+  | [], _, _, _ => rfl
+  | b :: pre, hr, hi, s => by
+    have ih := bubble a ha pre (fun c hc => hr c (List.mem_cons_of_mem _ hc)) (fun c hc => hi c (List.mem_cons_of_mem _ hc))
+    have hb := hr b (by simp)
+    have hib := hi b (by simp)
+    show runL (pre ++ [a]) (b.f s) = runL pre (b.f (a.f s))
+    rw [ih (b.f s)]
+    show runL pre (a.f (b.f s)) = runL pre (b.f (a.f s))
+    rw [swap_indep b.f a.f b.R b.W a.R a.W hb ha hib s]
+
+/-- `a` comes before `b` in `l` (ids are distinct) -/
+def Before (l : List Stm) (a b : Nat) : Prop := ∃ pre mid post x y, l = pre ++ x :: mid ++ y :: post ∧ x.id = a ∧ y.id = b
+
+theorem mem_split_id (l : List Stm) (a : Stm) (h : a ∈ l) : ∃ pre post, l = pre ++ a :: post := List.append_of_mem h
+
+/-- **two orders of the same statements that agree on every conflicting pair compute the same store** -/
+theorem reorder_sound : ∀ (l1 l2 : List Stm), l1.Perm l2 → (l1.map (·.id)).Nodup → (∀ a ∈ l1, Respects a.f a.R a.W) →
+    (∀ a ∈ l1, ∀ b ∈ l1, ¬ IndepS a b → Before l1 a.id b.id → Before l2 a.id b.id) → ∀ s, runL l1 s = runL l2 s
+  | [], l2, hp, _, _, _, s => by
+    have : l2 = [] := List.Perm.eq_nil (hp.symm)
+    rw [this]
+  | a :: t1, l2, hp, hnd, hr, hord, s => by
+    have ha2 : a ∈ l2 := hp.subset (by simp)
+    obtain ⟨pre, post, hl2⟩ := mem_split_id l2 a ha2
+    subst hl2
+    have hnd' : a.id ∉ t1.map (·.id) ∧ (t1.map (·.id)).Nodup := List.nodup_cons.1 (by rw [List.map_cons] at hnd; exact hnd)
+    -- ids of `l2` are distinct too
+    have hnd2 : ((pre ++ a :: post).map (·.id)).Nodup := (hp.map _).nodup_iff.1 hnd
+    -- everything in front of `a` in `l2` is independent of `a`
+    have hpre : ∀ b ∈ pre, IndepS b a := by
+      intro b hb
+      apply Classical.byContradiction
+      intro hni
+      have hb1 : b ∈ a :: t1 := hp.symm.subset (by simp [hb])
+      have hba : b ≠ a := by
+        intro e
+        subst e
+        -- `b = a` would occur twice in `l2`
+        rw [List.map_append, List.map_cons] at hnd2
+        have := (List.nodup_append.1 hnd2).2.2 b.id (List.mem_map.2 ⟨b, hb, rfl⟩) b.id (by simp)
+        exact this rfl
+      have hbt : b ∈ t1 := by
+        rcases List.mem_cons.1 hb1 with e | e
+        · exact absurd e hba
+        · exact e
+      -- in `l1`, `a` is before `b`
+      obtain ⟨m1, m2, hm⟩ := List.append_of_mem hbt
+      have hbef1 : Before (a :: t1) a.id b.id := ⟨[], m1, m2, a, b, by simp [hm], rfl, rfl⟩
+      have hni' : ¬ IndepS a b := fun h => hni h.symm
+      obtain ⟨p2, mid2, post2, x, y, he, hx, hy⟩ := hord a (by simp) b hb1 hni' hbef1
+      -- but in `l2`, `b ∈ pre` is before `a`: contradiction with distinct ids
+      obtain ⟨q1, q2, hq⟩ := List.append_of_mem hb
+      -- positions of ids in l2 are unique: compare the two decompositions through `idxOf`
+      have hids : (pre ++ a :: post).map (·.id) = (q1.map (·.id)) ++ b.id :: (q2.map (·.id) ++ a.id :: post.map (·.id)) := by
+        rw [hq]; simp
+      have hids2 : (pre ++ a :: post).map (·.id) = (p2.map (·.id)) ++ a.id :: (mid2.map (·.id) ++ b.id :: post2.map (·.id)) := by
+        rw [he]; simp [hx, hy]
+      have hnd3 := hnd2
+      rw [hids] at hnd3
+      -- index of a.id: in the first decomposition it lies after b.id, in the second before
+      have hne : a.id ≠ b.id := by
+        intro e
+        have := (List.nodup_append.1 hnd3).2.1
+        simp only [List.nodup_cons, List.mem_append, List.mem_cons, not_or] at this
+        exact this.1.2.1 e.symm
+      have e1 : ((pre ++ a :: post).map (·.id)).idxOf b.id < ((pre ++ a :: post).map (·.id)).idxOf a.id := by
+        have hb_not : b.id ∉ q1.map (·.id) := fun hm => (List.nodup_append.1 hnd3).2.2 b.id hm b.id (by simp) rfl
+        have ha_not : a.id ∉ q1.map (·.id) := fun hm => (List.nodup_append.1 hnd3).2.2 a.id hm a.id (by simp) rfl
+        rw [hids, List.idxOf_append, if_neg hb_not, List.idxOf_append, if_neg ha_not]
+        simp only [List.idxOf_cons_self]
+        rw [List.idxOf_cons]
+        have : (b.id == a.id) = false := by simpa using fun e : b.id = a.id => hne e.symm
+        rw [this]
+        simp only [cond_false]
+        omega
+      have e2 : ((pre ++ a :: post).map (·.id)).idxOf a.id < ((pre ++ a :: post).map (·.id)).idxOf b.id := by
+        have hnd4 := hnd2
+        rw [hids2] at hnd4
+        have ha_not : a.id ∉ p2.map (·.id) := fun hm => (List.nodup_append.1 hnd4).2.2 a.id hm a.id (by simp) rfl
+        have hb_not : b.id ∉ p2.map (·.id) := fun hm => (List.nodup_append.1 hnd4).2.2 b.id hm b.id (by simp) rfl
+        rw [hids2, List.idxOf_append, if_neg ha_not, List.idxOf_append, if_neg hb_not]
+        simp only [List.idxOf_cons_self]
+        rw [List.idxOf_cons]
+        have : (a.id == b.id) = false := by simpa using hne
+        rw [this]
+        simp only [cond_false]
+        omega
+      omega
+    have hrp : ∀ b ∈ pre, Respects b.f b.R b.W := fun b hb => hr b (hp.symm.subset (by simp [hb]))
+    -- move `a` to the front of `l2`
+    have hmove : runL (pre ++ a :: post) s = runL (a :: (pre ++ post)) s := by
+      have : pre ++ a :: post = (pre ++ [a]) ++ post := by simp
+      rw [this, runL_append, bubble a (hr a (by simp)) pre hrp hpre s]
+      show runL post (runL (a :: pre) s) = runL (pre ++ post) (a.f s)
+      rw [runL_append]
+      rfl
+    rw [hmove]
+    show runL t1 (a.f s) = runL (pre ++ post) (a.f s)
+    -- the tails: still a permutation, still agreeing on conflicting pairs
+    have hp' : t1.Perm (pre ++ post) := by
+      have := (List.perm_middle (l₁ := pre) (l₂ := post) (a := a))
+      exact (List.Perm.cons_inv (hp.trans this))
+    apply reorder_sound t1 (pre ++ post) hp' hnd'.2 (fun c hc => hr c (List.mem_cons_of_mem _ hc))
+    intro x hx y hy hni hbef
+    obtain ⟨p1, m1, q1, x', y', he, hx', hy'⟩ := hbef
+    have hbef1 : Before (a :: t1) x.id y.id := ⟨a :: p1, m1, q1, x', y', by simp [he], hx', hy'⟩
+    obtain ⟨p2, m2, q2, x2, y2, he2, hx2, hy2⟩ := hord x (List.mem_cons_of_mem _ hx) y (List.mem_cons_of_mem _ hy) hni hbef1
+    -- remove `a` from the decomposition of `l2`: `a` is neither `x2` nor `y2` (distinct ids, x y ∈ t1)
+    have hax : a.id ≠ x.id := fun e => hnd'.1 (by rw [e]; exact List.mem_map.2 ⟨x, hx, rfl⟩)
+    have hay : a.id ≠ y.id := fun e => hnd'.1 (by rw [e]; exact List.mem_map.2 ⟨y, hy, rfl⟩)
+    -- erase `a` (by id) from both sides of he2
+    have herase : ∀ l : List Stm, (l.filter fun z => z.id != a.id) = l.filter fun z => z.id != a.id := fun _ => rfl
+    have hf2 := congrArg (fun l : List Stm => l.filter fun z => z.id != a.id) he2
+    simp only [List.filter_append, List.filter_cons] at hf2
+    have hpre_f : (pre.filter fun z => z.id != a.id) = pre := by
+      apply List.filter_eq_self.2
+      intro z hz
+      have : z.id ≠ a.id := by
+        intro e
+        rw [List.map_append, List.map_cons] at hnd2
+        exact (List.nodup_append.1 hnd2).2.2 z.id (List.mem_map.2 ⟨z, hz, rfl⟩) a.id (by simp) e
+      simpa using this
+    have hpost_f : (post.filter fun z => z.id != a.id) = post := by
+      apply List.filter_eq_self.2
+      intro z hz
+      have : z.id ≠ a.id := by
+        intro e
+        rw [List.map_append, List.map_cons] at hnd2
+        have h2 := (List.nodup_append.1 hnd2).2.1
+        simp only [List.nodup_cons, List.mem_map] at h2
+        exact h2.1 ⟨z, hz, e⟩
+      simpa using this
+    have hx2n : (x2.id != a.id) = true := by
+      rw [hx2]; simpa using fun e : x.id = a.id => hax e.symm
+    have hy2n : (y2.id != a.id) = true := by
+      rw [hy2]; simpa using fun e : y.id = a.id => hay e.symm
+    simp only [hpre_f, hpost_f, bne_self_eq_false, Bool.false_eq_true, if_false, hx2n, hy2n, if_true] at hf2
+    exact ⟨_, _, _, x2, y2, hf2, hx2, hy2⟩
+termination_by l1 => l1.length
+
+-- non-vacuity: three statements, the two independent ones exchanged
+example : runL [⟨0, fun s => fun x => if x = "a" then 1 else s x, [], ["a"]⟩, ⟨1, fun s => fun x => if x = "b" then 2 else s x, [], ["b"]⟩,
+    ⟨2, fun s => fun x => if x = "c" then s "a" + s "b" else s x, ["a", "b"], ["c"]⟩] (fun _ => 0) "c" = 3 := by decide
+
 /-- non-vacuity: splitting M (depth 0) then N (depth 1, now 2) of a rank-2 tensor, and the other way round -/
 example : splitUniform 2 2 (splitUniform 3 0 [([[4], [5]], 1)]) = splitUniform 3 0 (splitUniform 2 1 [([[4], [5]], 1)]) := by decide
 
